@@ -550,6 +550,23 @@ def run(prop: str, tier: str, only=None) -> Result:
     tp = moved_into_new_branch_pairs(3 if tier == "quick" else 4)
     total.merge(parallel(_explicit_pairs_chunk, tp, prop, prop=prop))
     total.bounds["Tree.diff (moves into new branches)"] = f"{len(tp)} pairs: every forest <= {3 if tier == 'quick' else 4} nodes over {{a,b,c}} with each branch taken out and re-inserted at depth 1..2 inside a new branch (n[x], n[m[x]], n[m[x] y], n[y m[x]]) at top level and below the first top-level node"
+    # second tree = first tree after a history (all accessors evaluated once, one change through the public API), both directions;
+    # the same for larger trees with sampled changes
+    hp = []
+    for sb in gen.history_specs(gen.plain_specs(3 if tier == "quick" else 4, min_n=1)):
+        sa = gen.Spec(sb.hist[0])
+        hp += [(sa, sb), (sb, sa)]
+    nb = 8 if tier == "quick" else 60
+    for k, sa in enumerate(gen.big_specs(seed() + 11, nb, lo=16, hi=30)):
+        for sb in gen.history_specs([sa], sample=(random.Random(base + 77 + k), 6)):
+            hp += [(sa, sb), (sb, sa)]
+    rh = parallel(_explicit_pairs_chunk, hp, prop, prop=prop)
+    rh.exhaustive = False
+    total.merge(rh)
+    total.bounds["Tree.diff (tree vs. its own later state)"] = (
+        f"{len(hp)} pairs: every forest with 1..{3 if tier == 'quick' else 4} nodes over {{a,b,c}} against each tree reached from it by one change (remove, remove(keep_children), move_to, add, "
+        f"remove_children, sort_children, deep copy) after all accessors had been evaluated, both directions; {nb} seeded larger trees with 16..30 nodes x 6 sampled changes (VERIF_SEED={seed()})"
+    )
     pairs = random_pairs(n_rand, n_max, base)
     r = parallel(_explicit_pairs_chunk, pairs, prop, prop=prop)
     r.exhaustive = False
